@@ -446,6 +446,19 @@ func genC11Batch(g *Gen) error {
 		return err
 	}
 	g.P("def src_getTargetShardMsg : String := %s", leanStr(g.Src(gt.Body)))
+	// alive-shard lists (OG.C11.Alive)
+	const mc = "lib/metaclient/meta_client_impl.go"
+	for _, f := range []struct{ name, lean string }{
+		{"Client.GetAliveShards", "src_GetAliveShards"},
+		{"Client.getAliveShardsForWAF", "src_getAliveShardsForWAF"},
+		{"Client.getAliveShardsForHardWrite", "src_getAliveShardsForHardWrite"},
+	} {
+		fd, err := g.Func(mc, f.name)
+		if err != nil {
+			return err
+		}
+		g.P("def %s : String := %s", f.lean, leanStr(g.Src(fd.Body)))
+	}
 	msk, err := g.Const(pw, "MaxShardKey")
 	if err != nil {
 		return err
